@@ -116,6 +116,18 @@ CHECKS.update({
         "State machines own the history of calls on one API model of a generated package (optional literals, literal unions, *args, aliased re-exports, private bases shared by several subclasses, foreign classes); after every step the canonical serialisation of the model must be unchanged, every generation must reproduce the first one with the same naming setting, and inlined copies of one method must be identical; two CLI runs into one directory must leave the tree of a single run. A failing history is shrunk and replayed without Hypothesis.",
         "§5 C16",
     ),
+    "C08": (
+        "E4 relation engine",
+        "metamorphic property-based testing: one generated package run under perturbed hash seed / directory enumeration order (os.scandir, os.listdir wrapped by the harness) / working directory / path spelling / repetition; oracle = byte equality of API JSON and all stub files",
+        "Tie-rich packages (one short class name in several modules, re-exports by several packages, several foreign classes per module, type variables, inferred and literal unions) are each run 12 times with identical contents and options while one environmental factor is varied; every run must produce the same set of paths and the same bytes.",
+        "§5 C08",
+    ),
+    "C15": (
+        "E4 relation engine",
+        "metamorphic property-based testing: Hypothesis-drawn directory trees with excluded names and look-alikes, each run with the flag off and on; oracle = expected module set per flag, no excluded path segment when off, byte-identical stubs for unaffected modules, documented rejection when nothing remains",
+        "Trees whose directories are named test / tests / docs (at any depth, nested in each other) or merely look like it (testing, mytests, docs_old, Test, tests_extra, doc; files test_x.py, tests.py, docs.py) are analysed with the flag off and on; the set of module ids, the declarations in the API JSON, the stub paths and the bytes of the stubs of unaffected modules are compared with what the tree implies.",
+        "§5 C15",
+    ),
 })
 
 NOT_YET = "check not built yet in this session (work in progress, see DESIGN.md §9)"
